@@ -1321,8 +1321,14 @@ class MountPointStore(RoutingStore):
         if self.default_store is not None:
             for prefix in self.default_store.keys():
                 if prefix.startswith(key + "/") or key in (None, ""):
-                    v = prefix.split("/")
-                    d.add(v[key_depth])
+                    try:
+                        # a key of the default store that a mount shadows is not part of the tree
+                        visible = self.route_to(prefix) is self.default_store
+                    except KeyRouteNotFoundStoreException:
+                        visible = False
+                    if visible:
+                        v = prefix.split("/")
+                        d.add(v[key_depth])
 
         return sorted(d)
 
